@@ -38,9 +38,9 @@ PROPS = {
     "C01": {
         "channels": [{"cmd": "run-det"}],
         "cone": None,
-        "rule": "same stream as C03 with every detector called directly under recover on an exact-capacity copy and on a prefix of a poisoned larger buffer; a panic, a poison-dependent verdict, a nil result or a 10 s hang is a property failure",
-        "proved": "",
-        "not_proved": "",
+        "rule": "same stream as C03 with every detector called directly under recover on an exact-capacity copy and on a prefix of a poisoned larger buffer; a panic, a poison-dependent verdict, a nil result or a 20 s hang is a property failure",
+        "proved": "soundness of the bounds analysis (a GoLite term that passes it never evaluates to Panic, for every input, limit and environment); regenerated obligation: every combinator instance of tree.go and every GoLite detector term passes the analysis; every node of the regenerated tree has a model; the model's Detect is total and returns a registered chain ending in the root for every input and limit",
+        "not_proved": "the loop-carrying detectors (zip walk, CRX, OLE, Matroska, tar, JSON scanner, NDJSON/CSV, charset sniffers) are modelled as total list functions in which an index error is not representable: their crash- and hang-freedom on the real code is exercised (recover, poisoned capacity, hostile length fields, watchdog), not proved; stdlib calls are assumed not to panic",
         "assumptions": COMMON_ASSUME,
     },
 }
@@ -73,8 +73,9 @@ PROPS["C08"] = {
     "exhaustive": True,
     "data_obligations": ["children of text/plain before json are html, svg, xml, php, js, lua, perl, python"],
     "rule": "json: generator-produced RFC 8259 documents (all token spellings, layouts, strings starting with structural characters, escapes, non-ASCII), confirmed by encoding/json.Valid, examined whole and at every cut after the opening bracket (limit = cut): a rejection by the implementation is a C08 failure; jexh: exhaustive agreement with the model whose acceptance is proved sound (C09) and equals the grammar judge on every enumerated string; c10: whole valid objects must land in the JSON family; non-trivial = accepted by a JSON-family detector",
-    "proved": "completeness of the scanner for every query table, level and depth within the cap (mutual induction over the grammar with RFC 8259 numbers); C08_whole: every such document examined in full is reported by the JSON detector; the whole/truncated decision; priority structure before json",
-    "not_proved": "the truncated case (every cut after the opening bracket): decided on the implementation by generation + exhaustive agreement implementation = model = judge",
+    "data_obligations_extra": ["json is a child of text/plain, text/plain the last root child, json's detector is magic.JSON (ob_json_position)"],
+    "proved": "the full statement on the model: for every document of the RFC 8259 grammar (depth within the cap) and every limit that leaves the opening bracket inside the header, the JSON detector accepts the header (C08_every_cut = C08_whole + C08_truncated), and Detect's hierarchy contains application/json unless a format consulted earlier accepts (C08_detect). Ingredients: completeness of the scanner by mutual induction over the grammar; the scanner is online (a prefix of an input scanned to completion is inspected to its last byte, for every query table, cap and fuel); the result does not depend on fuel beyond 2*len+2",
+    "not_proved": "that the Go scanner is the modelled scanner (correspondence: json, jexh, jdeep channels); that every RFC 8259 text produced by a real encoder lies in the grammar (checked per generated document against encoding/json.Valid)",
     "assumptions": JSON_ASSUME,
 }
 PROPS["C10"] = {
